@@ -199,27 +199,46 @@ type readOutcome struct {
 }
 
 func runRead(r io.Reader, cfg *sse.ReadConfig, stopAfter int) (o readOutcome) {
-	defer func() { o.panicked = recover() }()
 	stopped := false
-	sse.Read(r, cfg)(func(e sse.Event, err error) bool {
-		if o.nerr > 0 || stopped {
-			o.after = true
-		}
-		if err != nil {
-			o.nerr++
-			o.err = err
-			if e != (sse.Event{}) {
-				o.evWithErr = true
+	var seq func(func(sse.Event, error) bool)
+	func() {
+		defer func() {
+			if p := recover(); p != nil {
+				o.panicked = p
+			}
+		}()
+		seq = sse.Read(r, cfg)
+		seq(func(e sse.Event, err error) bool {
+			if o.nerr > 0 || stopped {
+				o.after = true
+			}
+			if err != nil {
+				o.nerr++
+				o.err = err
+				if e != (sse.Event{}) {
+					o.evWithErr = true
+				}
+				return true
+			}
+			o.evs = append(o.evs, ev{e.LastEventID, e.Type, e.Data})
+			if stopAfter > 0 && len(o.evs) == stopAfter {
+				stopped = true
+				return false
 			}
 			return true
-		}
-		o.evs = append(o.evs, ev{e.LastEventID, e.Type, e.Data})
-		if stopAfter > 0 && len(o.evs) == stopAfter {
-			stopped = true
-			return false
-		}
-		return true
-	})
+		})
+	}()
+	if o.panicked == nil && !stopped && seq != nil {
+		// the sequence Read returns may be ranged over again (the reader is exhausted by then): whatever it yields, it must not panic
+		func() {
+			defer func() {
+				if p := recover(); p != nil {
+					o.panicked = fmt.Sprintf("on a second pass over the sequence: %v", p)
+				}
+			}()
+			seq(func(sse.Event, error) bool { return true })
+		}()
+	}
 	return
 }
 
